@@ -611,6 +611,116 @@ fn probe_bytes() -> Vec<u8> {
     v
 }
 
+/// Child mode: run the REAL request loop (`serve::serve`, compiled into this harness from /repo) on this process's
+/// stdin/stdout under the counting allocator and report the largest single allocation it made.
+pub fn child_servemem(root: &str, report: &str) -> ! {
+    let (r, max_single, peak) = with_alloc_tracking(|| catch(|| {
+        let _ = crate::serve::serve(Path::new(root));
+    }));
+    let _ = std::fs::write(report, serde_json::to_vec(&json!({"max_single": max_single, "peak": peak, "panic": r.err()})).unwrap_or_default());
+    std::process::exit(0);
+}
+
+/// Whole-session memory histories: frame sequences in which an earlier (legal, large) control frame precedes a
+/// larger length prefix, so that any buffer reused between frames would have to grow.
+fn memory_sessions(thorough: bool, evals: &AtomicU64, nontrivial: &AtomicU64) -> Vec<Violation> {
+    let big_get = |n: usize| framed(&cbor(&Request::Get { path: "p".repeat(n) }));
+    let firsts: Vec<usize> = if thorough { vec![0, 1000, 300_000, 524_289, 600_000, 900_000, 1_048_000] } else { vec![0, 524_289, 600_000, 1_048_000] };
+    let seconds: Vec<u32> = if thorough { vec![1000, 600_001, 700_000, 1 << 20, (1 << 20) + 1, 1 << 31, u32::MAX] } else { vec![700_000, 1 << 20, (1 << 20) + 1, u32::MAX] };
+    let mut cases: Vec<(String, Vec<u8>)> = Vec::new();
+    for &f in &firsts {
+        for &p2 in &seconds {
+            for body in ["none", "full"] {
+                let mut v = crate::wire::MAGIC.to_vec();
+                v.extend(framed(&cbor(&Request::Hello { version: 1 })));
+                if f > 0 {
+                    v.extend(big_get(f));
+                }
+                v.extend_from_slice(&p2.to_be_bytes());
+                if body == "full" && p2 <= (1 << 20) {
+                    // a well-formed Get whose frame is exactly p2 bytes long
+                    let mut n = p2 as usize;
+                    let mut fr = big_get(n.saturating_sub(16));
+                    while fr.len() - 4 != p2 as usize && n > 0 {
+                        n = if fr.len() - 4 > p2 as usize { n - 1 } else { n + 1 };
+                        fr = big_get(n.saturating_sub(16));
+                        if n > p2 as usize + 64 {
+                            break;
+                        }
+                    }
+                    if fr.len() - 4 == p2 as usize {
+                        v.extend_from_slice(&fr[4..]);
+                        v.extend(framed(&cbor(&Request::Bye)));
+                    }
+                }
+                cases.push((format!("Hello, Get with a {f}-byte path, then length prefix {p2} ({body} body)"), v));
+            }
+        }
+    }
+    let exe = std::env::current_exe().unwrap_or_else(|e| machinery_error(format!("current_exe: {e}")));
+    cases
+        .par_iter()
+        .filter_map(|(name, input)| {
+            evals.fetch_add(1, Ordering::Relaxed);
+            nontrivial.fetch_add(1, Ordering::Relaxed);
+            let sc = Scratch::new("c12mem");
+            let root = sc.path("hub");
+            init_hub(&root);
+            let report = sc.path("report.json");
+            let mut cmd = std::process::Command::new(&exe);
+            cmd.arg("C12").arg("--child").arg("servemem").arg(&root).arg(&report).env("RUST_LOG", "off").stdin(std::process::Stdio::piped()).stdout(std::process::Stdio::piped()).stderr(std::process::Stdio::null());
+            let mut child = cmd.spawn().unwrap_or_else(|e| machinery_error(format!("spawn servemem child: {e}")));
+            let mut stdin = child.stdin.take();
+            let mut stdout = child.stdout.take();
+            let inp = input.clone();
+            let wr = std::thread::spawn(move || {
+                if let Some(mut w) = stdin.take() {
+                    let _ = w.write_all(&inp);
+                }
+            });
+            let rd = std::thread::spawn(move || {
+                let mut b = Vec::new();
+                if let Some(o) = stdout.as_mut() {
+                    let _ = o.read_to_end(&mut b);
+                }
+            });
+            let t0 = std::time::Instant::now();
+            let mut timed_out = false;
+            loop {
+                match child.try_wait() {
+                    Ok(Some(_)) => break,
+                    Ok(None) if t0.elapsed().as_secs() > 20 => {
+                        timed_out = true;
+                        let _ = child.kill();
+                        let _ = child.wait();
+                        break;
+                    }
+                    Ok(None) => std::thread::sleep(std::time::Duration::from_millis(2)),
+                    Err(_) => break,
+                }
+            }
+            let _ = wr.join();
+            let _ = rd.join();
+            let det = json!({"part": "memory", "name": name});
+            if timed_out {
+                return Some(Violation::new("hang", format!("{name}: the request loop did not finish within 20 s of its input being closed"), det));
+            }
+            let rep: Value = serde_json::from_slice(&std::fs::read(&report).unwrap_or_default()).unwrap_or(Value::Null);
+            let Some(ms) = rep["max_single"].as_u64() else { machinery_error(format!("servemem child wrote no report for {name}")) };
+            if let Some(p) = rep["panic"].as_str() {
+                return Some(Violation::new("panic", format!("{name}: the request loop panicked: {p}"), det));
+            }
+            if ms as usize > FRAME_ALLOC_BOUND {
+                return Some(Violation::new("alloc_bound", format!("{name}: the request loop made a single allocation of {ms} bytes (bound: 1 MiB per control frame)"), det));
+            }
+            None
+        })
+        .collect::<Vec<_>>()
+        .into_iter()
+        .take(4)
+        .collect()
+}
+
 fn server_part(thorough: bool, evals: &AtomicU64, nontrivial: &AtomicU64) -> Vec<Violation> {
     let frames = reference_session();
     let whole: Vec<u8> = frames.concat();
@@ -800,6 +910,9 @@ pub fn run_c12(ctx: &Ctx) -> ! {
             }
         } else {
             let name = v["detail"]["name"].as_str().unwrap_or("").to_string();
+            if v["detail"]["part"] == "memory" {
+                violations.extend(memory_sessions(true, &evals, &nontrivial).into_iter().filter(|x| x.detail["name"] == name.as_str()));
+            }
             violations.extend(server_part(true, &evals, &nontrivial).into_iter().filter(|x| x.detail["name"] == name.as_str()));
         }
         let mut rep = Report::new("exploration");
@@ -810,6 +923,8 @@ pub fn run_c12(ctx: &Ctx) -> ! {
     let dec = evals.load(Ordering::Relaxed);
     violations.extend(server_part(thorough, &evals, &nontrivial));
     let sess = evals.load(Ordering::Relaxed) - dec;
+    violations.extend(memory_sessions(thorough, &evals, &nontrivial));
+    let mem = evals.load(Ordering::Relaxed) - dec - sess;
     let mut per: std::collections::HashMap<String, usize> = Default::default();
     violations.retain(|v| {
         let c = per.entry(v.kind().to_string()).or_insert(0);
@@ -821,7 +936,8 @@ pub fn run_c12(ctx: &Ctx) -> ! {
         .set("distinct_nontrivial", nontrivial.load(Ordering::Relaxed))
         .set("decoder_inputs", dec)
         .set("server_sessions", sess)
-        .set("rule", "decoder level (real wire::read_magic / read_frame::<Request>, counting allocator): every byte string of length <= 3 over all 256 values; every length prefix in {0, 1, 2^20-1, 2^20, 2^20+1, 2^31, 2^32-1} followed by every body of a CBOR menu (all 6 request kinds valid, each at every truncation, + trailing bytes; maps/arrays/strings/byte-strings declaring 2^32, 2^63, 2^64-1; nesting depth 10 / 200 / 100 000; indefinite-length items; wrong variants). Whole server (real process, RLIMIT_AS 512 MiB, 10 s timeout): a reference session cut after EVERY byte; every frame dropped / duplicated / swapped; banners before the magic; every length-prefix mutation at every frame; the CBOR menu after a valid prologue followed by a probe suffix; 7 well-framed error-earning requests followed by the probe suffix (replies must equal a fresh session's); non-trivial = derived from a valid session or CBOR item")
+        .set("memory_history_sessions", mem)
+        .set("rule", "memory histories (the REAL request loop serve::serve run in a child of this harness under the counting allocator): Hello, optionally a legal Get frame of 0.5–1 MiB, then a length prefix from {700 000, 2^20, 2^20+1, 2^32-1} with and without its body — the largest single allocation of the whole session must stay <= 1 MiB + 64 KiB; decoder level (real wire::read_magic / read_frame::<Request>, counting allocator): every byte string of length <= 3 over all 256 values; every length prefix in {0, 1, 2^20-1, 2^20, 2^20+1, 2^31, 2^32-1} followed by every body of a CBOR menu (all 6 request kinds valid, each at every truncation, + trailing bytes; maps/arrays/strings/byte-strings declaring 2^32, 2^63, 2^64-1; nesting depth 10 / 200 / 100 000; indefinite-length items; wrong variants). Whole server (real process, RLIMIT_AS 512 MiB, 10 s timeout): a reference session cut after EVERY byte; every frame dropped / duplicated / swapped; banners before the magic; every length-prefix mutation at every frame; the CBOR menu after a valid prologue followed by a probe suffix; 7 well-framed error-earning requests followed by the probe suffix (replies must equal a fresh session's); non-trivial = derived from a valid session or CBOR item")
         .set("samples", json!([{"part":"decoder","bytes":"ffffffff"},{"part":"server","name":"reference session cut after 57 bytes"},{"part":"server","name":"frame 3 length prefix := 4294967295"},{"part":"resync","name":"Put with a bad path (content supplied)"}]))
         .set("exhaustive", true);
     rep.assume("memory bound: largest single allocation per decode call <= 1 MiB + 64 KiB (counting allocator) in-process, RLIMIT_AS = 512 MiB for the real server; 'spins' = still running 10 s after stdin was closed");
